@@ -80,6 +80,20 @@ def case_f29():
     return {'meta': {'pages': pages}, 'opts': o, 'starts': [('h1', '/')], 'start_spellings': [es.canon('h1', '/')]}
 
 
+def case_root_first():
+    """two start URLs, --no-parent, two workers: /d/ (slow) and /k/x.html both link to /d/e2; the fast page discovers it first, the row
+    keeps root /k/x.html and --no-parent refuses it, although it lies under the directory of the start URL /d/ that links to it"""
+    P = lambda kind, **kw: dict({'kind': kind, 'links': [], 'target': None, 'delay': 0.0, 'code': 200}, **kw)
+    L = lambda p: ('h1', p, False, p)
+    pages = {('h1', '/d/'): P('doc', links=[L('/d/e2')], delay=1.2),
+             ('h1', '/k/x.html'): P('doc', links=[L('/d/e2')]),
+             ('h1', '/d/e2'): P('leaf')}
+    o = {'recursive': True, 'preq': False, 'level': None, 'prl': None, 'no_parent': True, 'tries': 1, 'acc': None, 'rej': None,
+         'span': False, 'span_preq': False, 'span_linked': False, 'maxredir': None, 'conc': 2}
+    return {'meta': {'pages': pages}, 'opts': o, 'starts': [('h1', '/d/'), ('h1', '/k/x.html')],
+            'start_spellings': [es.canon('h1', '/d/'), es.canon('h1', '/k/x.html')]}
+
+
 # --------------------------------------------------------------------------
 # the property on the implementation's observables
 # --------------------------------------------------------------------------
@@ -126,8 +140,15 @@ def property_on_impl(case, result):
               if any(es.canon(*k) == t and row['level'] > lv for k, (lv, _) in ref['rows'].items())]
     for k in ref['initial']:
         if k not in reqs:
+            # the row exists but was first discovered from a page under another start URL: its recorded root differs
+            row = rows.get(es.canon(*k))
+            ref_root = ref.get('roots', {}).get(k)
+            other_root = bool(row and ref_root and row.get('root') and
+                              row['root'].replace(':%d' % port, ':{PORT}', 1) != es.canon(*ref_root))
             out.append({'why': 'missing-request', 'detail': {'url': list(k), 'conc': case['opts']['conc'],
-                                                            'rows_deeper_than_shortest_path': sorted(deeper)[:5]}})
+                                                            'rows_deeper_than_shortest_path': sorted(deeper)[:5],
+                                                            'no_parent': bool(case['opts'].get('no_parent')),
+                                                            'row_root_differs_from_sequential_crawl': other_root}})
     return out
 
 
@@ -139,12 +160,16 @@ def classify(v):
         return 'redirect-target-also-linked' if d.get('own_row') else 'redirect-target-shared'
     if why == 'missing-request' and d.get('conc', 1) > 1 and d.get('rows_deeper_than_shortest_path'):
         return 'level-first-discovery'
+    if why == 'missing-request' and d.get('conc', 1) > 1 and d.get('no_parent') and d.get('row_root_differs_from_sequential_crawl'):
+        # same cause as level-first-discovery: the row keeps the root of the page that discovered it first, and --no-parent is
+        # evaluated against that root
+        return 'root-first-discovery'
     return why or 'unclassified'
 
 
 # --------------------------------------------------------------------------
 def gen_cases(r, n, thorough=False):
-    cases = [('f28', case_f28()), ('f29', case_f29())]
+    cases = [('f28', case_f28()), ('f29', case_f29()), ('root-first', case_root_first())]
     for i in range(n):
         kind = i % 6
         if kind == 0:
